@@ -235,6 +235,18 @@ def build(run):
                          and len(N2.argument_slots()) == len(Nop.argument_slots()))
             if not same_data:
                 return violated(f"replace({mname}(f, ...)*f, {{f: g}}) changed the operator's data: {Nop!r} -> {N2!r}", replay={"operator": mname}, reproduced=True, backend="exec")
+        # the substitution is SIMULTANEOUS: the image of an operator key is taken as it is, also when the image contains mapped terminals
+        h_ = _ufl.Coefficient(V_)
+        for what, key_, img_, extra in (("ExternalOperator key, operator image over a mapped coefficient", ExternalOperator(f, function_space=V_), ExternalOperator(f, f, function_space=V_), {f: h_}),
+                                        ("Interpolate key, interpolation image over a mapped coefficient", Interpolate(f, V_), Interpolate(f * f, V_), {f: h_}),
+                                        ("ExternalOperator key, expression image over a mapped coefficient", ExternalOperator(f, g, function_space=V_), f * g + 1, {f: g, g: f})):
+            mp_ = {key_: img_, **extra}
+            got = replace(key_ * g if "expression image" not in what else key_, mp_)
+            want = (img_ * replace(g, extra)) if "expression image" not in what else img_
+            n += 1
+            if not (got == want):
+                return violated(f"replace with {what}: got {str(got)[:160]}, the image taken as it is gives {str(want)[:160]} (the image was substituted into a second time)",
+                                replay={"case": what, "got": str(got)[:400], "want": str(want)[:400]}, reproduced=True, backend="exec")
         # mapped objects in the DUAL slot of an interpolation (a cofunction, a coargument) are replaced too, together with the expression operand
         from ufl import Coargument, Cofunction
         c1, c2 = Cofunction(V_.dual()), Cofunction(V_.dual())
